@@ -31,7 +31,7 @@ Definition id := nat.
 Definition caller := nat.
 Definition host := nat. (* 0 = not forwarded *)
 
-Inductive errk := EStream | ESend | EInit | ENoConn | ECtx | ETimeout | EClosed.
+Inductive errk := EStream | ESend | EInit | ENoConn | ECtx | ETimeout | EClosed | EIdle.
 Inductive result := Resp (p : nat) | Err (e : errk).
 
 Inductive est := Fresh | Queued | Built (i : id) | Stored (i : id) | Retired.
@@ -75,7 +75,8 @@ Inductive label :=
 | RecvPanic (h : host)
 | FailPanic (h : host)
 | CloseFail (c : caller)
-| QueueFail (c : caller).
+| QueueFail (c : caller)
+| IdleFail (c : caller).
 
 Definition entry0 : entry := mkEntry 0 Fresh [] false None.
 
@@ -271,6 +272,14 @@ Definition step (s : state) (l : label) : option state :=
          batchSendLoop returns) *)
       match e_st (ent s c) with
       | Queued => if closed s then Some (with_ent s (upd (ent s) c (complete (ent s c) (Err EClosed)))) else None
+      | _ => None
+      end
+  | IdleFail c =>
+      (* fix e17a7fd: an entry that is still queued when the batchConn has become idle (the send loop returned on its idle
+         timer and never comes back) is failed with "rpcClient is idle" -- by the drain at the loop's exit or by the async
+         sender's re-check of isIdle after enqueueing *)
+      match e_st (ent s c) with
+      | Queued => Some (with_ent s (upd (ent s) c (complete (ent s c) (Err EIdle))))
       | _ => None
       end
   end.
